@@ -1,6 +1,7 @@
 (** C17 -- property file (function values on DuckDB).  Contains only: the full statement, the instantiation of the
-    emulation theorems on the facts regenerated from /repo (Gen.C17Facts), refutations for the genuine defects the
-    model can express, non-vacuity examples, Print Assumptions. *)
+    emulation theorems on the facts regenerated from /repo (Gen.C17Facts), the per-emulation verdicts (exact under the
+    repaired shape / the characterised defect under the old shape -- whichever the source has now), the refutation that
+    remains, non-vacuity examples, Print Assumptions. *)
 From Coq Require Import ZArith List Bool Lia Permutation Sorted.
 From SF Require Import C17.Emul C17.EmulCheck.
 From Gen Require Import C17Facts.
@@ -8,13 +9,14 @@ Import ListNotations.
 Open Scope Z_scope.
 
 (** The property at full strength, as far as this development can state it: for EVERY modelled call and EVERY
-    input, the value DuckDB computes for the expression sqlframe builds is the value Spark computes.  (The ~200
+    input, the value DuckDB computes for the expression sqlframe builds is the value Spark computes.  (The ~190
     functions for which sqlframe only names a sqlglot node have no sqlframe-owned semantics to state; they are
-    compared against PySpark recordings by the correspondence only.)  It is FALSE of the faithful model: see the
-    refutations below. *)
+    compared against PySpark recordings by the correspondence only.)  It is FALSE of the faithful model: see
+    C17_refuted_getItem_column_key. *)
 Definition C17_full : Prop := forall i : ein, rv_eqb (duck_of c17_facts i) (spark_of i) = true.
 
-(** What is proved: one theorem per emulation, each on its stated domain, each instantiated on the generated shape. *)
+(** What is proved under EITHER shape of each emulation (old hand-made guard or repaired one): one theorem per
+    emulation, each on its stated domain, each instantiated on the generated shape. *)
 Definition C17_partial_statement : Prop :=
   (* element_at / try_element_at: literal or plain-column index, index <> 0, every list *)
   (forall (l : list Z) e, simple e = true -> ieval e <> 0 ->
@@ -96,69 +98,120 @@ Example C17_domains_nonempty :
      IUnixMillis 1677974400000000] = true.
 Proof. vm_compute. reflexivity. Qed.
 
-(** ---- refutations: genuine defects of the unchanged tree that the faithful model exhibits ---- *)
+(** ---- verdicts: for each emulation that had (or has) a defect, the statement follows the generated shape:
+         exact on the whole domain when the source has the repaired shape, the characterised defect otherwise.
+         The last alternative of each [first] closes the branch that the current facts make contradictory. ---- *)
+Ltac absurd_branch E := exfalso; vm_compute in E; discriminate.
 
-(** slice: LIST_SLICE's end is inclusive.  The verdict follows the generated shape: with end = start+length-1 the
-    emulation is exact; with end = start+length (the unchanged tree) it returns length+1 elements. *)
-Definition C17_slice_verdict_statement : Prop :=
+(** slice: LIST_SLICE's end is inclusive *)
+Definition C17_verdict_slice_statement : Prop :=
   if slice_cfg_ok c17_slice
   then forall (l : list Z) s n, 1 <= s -> 0 <= n -> duck_slice c17_slice l s n = spark_slice l s n
   else (forall (l : list Z) s n, 1 <= s -> 0 <= n -> duck_slice c17_slice l s n = spark_slice l s (n + 1)) /\
-       exists (l : list Z) s n, 1 <= s /\ 0 <= n /\ duck_slice c17_slice l s n <> spark_slice l s n.
-Theorem C17_refuted_slice : C17_slice_verdict_statement.
+       duck_slice c17_slice [3; 1; 2] 1 2 <> spark_slice [3; 1; 2] 1 2.
+Theorem C17_verdict_slice : C17_verdict_slice_statement.
 Proof.
-  unfold C17_slice_verdict_statement. destruct (slice_cfg_ok c17_slice) eqn:E.
+  unfold C17_verdict_slice_statement. destruct (slice_cfg_ok c17_slice) eqn:E.
   - exact (slice_ok c17_slice E).
-  - first [ split; [exact (slice_one_too_many c17_slice eq_refl)
-                   | exists [3; 1; 2], 1, 2; split; [lia | split; [lia | vm_compute; discriminate]]]
-          | exfalso; vm_compute in E; discriminate ].
+  - first [ split; [exact (slice_one_too_many c17_slice eq_refl) | vm_compute; discriminate] | absurd_branch E ].
 Qed.
-Print Assumptions C17_refuted_slice.
-Definition C17_slice_is_exact : bool := slice_cfg_ok c17_slice.
-Eval vm_compute in C17_slice_is_exact.
+Print Assumptions C17_verdict_slice.
 
-(** element_at with an index expression that contains a literal but is not one (sqlframe subtracts 1, sqlglot does
-    not add it back), and with an index of visible integer type (sqlglot adds 1, sqlframe did not subtract) *)
-Theorem C17_refuted_element_at_index_expression :
-  duck_element_at c17_element_at [3; 1; 2] (IAdd (ICol 2) (ILit 1)) = Some 1 /\
-  spark_element_at [3; 1; 2] (ieval (IAdd (ICol 2) (ILit 1))) = Some 2 /\
-  duck_element_at c17_element_at [3; 1; 2] (ITyped 2) = Some 2 /\
-  spark_element_at [3; 1; 2] (ieval (ITyped 2)) = Some 1.
-Proof. repeat split. Qed.
+(** element_at / try_element_at: every index expression when the Bracket carries offset = 1; otherwise an index that
+    contains a literal without being one, or whose integer type sqlglot can see, is read off by one *)
+Definition C17_verdict_element_at_statement (c : shift_cfg) : Prop :=
+  if element_at_cfg_exact c
+  then forall (l : list Z) e, ieval e <> 0 -> duck_element_at c l e = spark_element_at l (ieval e)
+  else duck_element_at c [3; 1; 2] (ITyped 2) <> spark_element_at [3; 1; 2] 2.
+Theorem C17_verdict_element_at : C17_verdict_element_at_statement c17_element_at.
+Proof.
+  unfold C17_verdict_element_at_statement. destruct (element_at_cfg_exact c17_element_at) eqn:E.
+  - exact (element_at_exact c17_element_at E).
+  - first [ vm_compute; discriminate | absurd_branch E ].
+Qed.
+Theorem C17_verdict_try_element_at : C17_verdict_element_at_statement c17_try_element_at.
+Proof.
+  unfold C17_verdict_element_at_statement. destruct (element_at_cfg_exact c17_try_element_at) eqn:E.
+  - exact (element_at_exact c17_try_element_at E).
+  - first [ vm_compute; discriminate | absurd_branch E ].
+Qed.
+Print Assumptions C17_verdict_element_at.
 
-(** Column.getItem with a column key is 1-based on DuckDB (0-based in Spark) *)
+(** rint: ROUND_EVEN is exact on every rational; ROUND differs on ties *)
+Definition C17_verdict_rint_statement : Prop :=
+  if rint_cfg_exact c17_rint
+  then forall n d, duck_rint c17_rint n d = spark_rint n d
+  else duck_rint c17_rint 5 2 = Some 3 /\ spark_rint 5 2 = Some 2 /\ duck_rint c17_rint 1 2 = Some 1 /\ spark_rint 1 2 = Some 0.
+Theorem C17_verdict_rint : C17_verdict_rint_statement.
+Proof.
+  unfold C17_verdict_rint_statement. destruct (rint_cfg_exact c17_rint) eqn:E.
+  - exact (rint_exact c17_rint E).
+  - first [ exact (rint_tie_differs c17_rint eq_refl eq_refl) | absurd_branch E ].
+Qed.
+
+(** sequence: the sign-dependent default step is exact; a constant default 1 yields [] for descending bounds *)
+Definition C17_verdict_sequence_statement : Prop :=
+  if seq_cfg_exact c17_seq_default
+  then forall a b st, duck_sequence c17_seq_default a b st = spark_sequence a b st
+  else duck_sequence c17_seq_default 5 1 None = [] /\ spark_sequence 5 1 None = [5; 4; 3; 2; 1].
+Theorem C17_verdict_sequence : C17_verdict_sequence_statement.
+Proof.
+  unfold C17_verdict_sequence_statement. destruct (seq_cfg_exact c17_seq_default) eqn:E.
+  - exact (sequence_exact c17_seq_default E).
+  - first [ split; vm_compute; reflexivity | absurd_branch E ].
+Qed.
+
+(** unix_millis: EPOCH_MS is exact from the epoch on (and on whole milliseconds before it); seconds * 1000 drops
+    the fraction *)
+Definition C17_verdict_unix_millis_statement : Prop :=
+  if millis_cfg_exact c17_unix_millis
+  then forall us, (0 <= us \/ us mod 1000 = 0) -> duck_unix_millis c17_unix_millis us = spark_unix_millis us
+  else duck_unix_millis c17_unix_millis 1706708710123456 = 1706708710000 /\ spark_unix_millis 1706708710123456 = 1706708710123.
+Theorem C17_verdict_unix_millis : C17_verdict_unix_millis_statement.
+Proof.
+  unfold C17_verdict_unix_millis_statement. destruct (millis_cfg_exact c17_unix_millis) eqn:E.
+  - exact (unix_millis_exact c17_unix_millis E).
+  - first [ split; vm_compute; reflexivity | absurd_branch E ].
+Qed.
+
+(** NULL inputs: with the guards the emulations return NULL where Spark does; without them they return 0 / b / -1 *)
+Definition C17_verdict_null_guards_statement : Prop :=
+  (if pos_cfg_exact c17_pos
+   then forall l v, duck_array_position c17_pos l v = spark_array_position l v
+   else forall v, duck_array_position c17_pos None v = Some 0 /\ spark_array_position None v = None) /\
+  (if nanvl_cfg_exact c17_nanvl
+   then forall a b, duck_nanvl c17_nanvl a b = spark_nanvl a b
+   else duck_nanvl c17_nanvl None (Some (FFin 1)) = Some (FFin 1) /\ spark_nanvl None (Some (FFin 1)) = None) /\
+  (if lev_cfg_exact c17_lev
+   then forall dist thr, duck_levenshtein c17_lev dist thr = spark_levenshtein dist thr
+   else forall thr, duck_levenshtein c17_lev None thr = Some (-1) /\ spark_levenshtein None thr = None).
+Theorem C17_verdict_null_guards : C17_verdict_null_guards_statement.
+Proof.
+  unfold C17_verdict_null_guards_statement. split; [|split].
+  - destruct (pos_cfg_exact c17_pos) eqn:E.
+    + exact (array_position_exact c17_pos E).
+    + first [ exact (array_position_null_array c17_pos eq_refl eq_refl) | absurd_branch E ].
+  - destruct (nanvl_cfg_exact c17_nanvl) eqn:E.
+    + exact (nanvl_exact c17_nanvl E).
+    + first [ exact (nanvl_null_first c17_nanvl eq_refl eq_refl eq_refl) | absurd_branch E ].
+  - destruct (lev_cfg_exact c17_lev) eqn:E.
+    + exact (levenshtein_exact c17_lev E).
+    + first [ exact (levenshtein_null c17_lev eq_refl eq_refl) | absurd_branch E ].
+Qed.
+Print Assumptions C17_verdict_null_guards.
+
+(** which branch each verdict took on this run (read by the check into the evidence) *)
+Definition C17_exact_flags : list bool :=
+  [slice_cfg_ok c17_slice; element_at_cfg_exact c17_element_at; element_at_cfg_exact c17_try_element_at;
+   rint_cfg_exact c17_rint; seq_cfg_exact c17_seq_default; millis_cfg_exact c17_unix_millis;
+   pos_cfg_exact c17_pos; nanvl_cfg_exact c17_nanvl; lev_cfg_exact c17_lev].
+
+(** ---- the refutation that remains: Column.getItem with a column key is read 1-based (0-based in Spark) ---- *)
 Theorem C17_refuted_getItem_column_key :
   duck_getItem c17_getitem c17_element_at [3; 1; 2] (ICol 2) = Some 1 /\ spark_getItem [3; 1; 2] 2 = Some 2.
 Proof. split; reflexivity. Qed.
 
-(** rint on ties: ROUND is half-away-from-zero, Spark's rint is half-even *)
-Theorem C17_refuted_rint_ties :
-  duck_rint c17_rint 5 2 = Some 3 /\ spark_rint 5 2 = Some 2 /\ duck_rint c17_rint 1 2 = Some 1 /\ spark_rint 1 2 = Some 0.
-Proof. exact (rint_tie_differs c17_rint eq_refl). Qed.
-
-(** sequence(start, stop) with start > stop and no step: the emulation's default step is always 1 *)
-Theorem C17_refuted_sequence_descending :
-  duck_sequence c17_seq_default 5 1 None = [] /\ spark_sequence 5 1 None = [5; 4; 3; 2; 1].
-Proof. exact (sequence_descending_default c17_seq_default eq_refl). Qed.
-
-(** unix_millis drops the sub-second part *)
-Theorem C17_refuted_unix_millis_fraction :
-  duck_unix_millis c17_unix_millis 1706708710123456 = 1706708710000 /\ spark_unix_millis 1706708710123456 = 1706708710123.
-Proof. exact (unix_millis_drops_fraction c17_unix_millis eq_refl). Qed.
-
-(** NULL inputs where Spark answers NULL and the guard built by sqlframe answers something else *)
-Theorem C17_refuted_null_guards :
-  (forall v, duck_array_position c17_pos None v = Some 0 /\ spark_array_position None v = None) /\
-  (duck_nanvl c17_nanvl None (Some (FFin 1)) = Some (FFin 1) /\ spark_nanvl None (Some (FFin 1)) = None) /\
-  (forall thr, duck_levenshtein c17_lev None thr = Some (-1) /\ spark_levenshtein None thr = None).
-Proof.
-  split; [exact (array_position_null_array c17_pos eq_refl)|].
-  split; [exact (nanvl_null_first c17_nanvl eq_refl eq_refl)|].
-  exact (levenshtein_null c17_lev eq_refl).
-Qed.
-Print Assumptions C17_refuted_null_guards.
-
 (** hence the full statement is false of the faithful model *)
 Theorem C17_full_is_false : ~ C17_full.
-Proof. intro H. specialize (H (IRint 5 2)). vm_compute in H. discriminate. Qed.
+Proof. intro H. specialize (H (IGetItem [3; 1; 2] (ICol 2))). vm_compute in H. discriminate. Qed.
 Print Assumptions C17_full_is_false.
